@@ -149,7 +149,7 @@ func solveOne(o *Obligation, file string, opt solveOpts) {
 		// vacuity check: run the two z3 versions briefly; "unsat" means the assumptions are contradictory
 		total := 0.0
 		var outs []string
-		for _, sc := range solvers[:2] {
+		for _, sc := range solvers[:1] {
 			st, out, secs := runSolver(ctx, sc, file, 3*time.Second)
 			total += secs
 			outs = append(outs, sc.Name+": "+firstLine(out))
